@@ -342,7 +342,9 @@ def _run(case, fs):
         rf, short, at, of = None, None, None, None
         if fault is not None:
             if fault['kind'] == 'open':
-                of = {'at': 1}
+                # (when the harness opens the file itself there is nothing
+                # of the library's to fail)
+                of = {'at': 1} if op.get('via') != 'file' else None
             elif fault['kind'] == 'short':
                 short = fault['seed']
             else:
